@@ -257,6 +257,11 @@ class RealDomain(Domain):
         # value lies between them; callers add `NEG_INF <= v <= POS_INF` for their variables (see ctrl.Kit)
         if isinstance(f, float) and math.isinf(f):
             return Num(self, z3.Real("NEG_INF!" if f < 0 else "POS_INF!"))
+        if isinstance(f, float) and f != f:
+            # NaN has no real-arithmetic meaning.  Code sometimes uses it as a placeholder that is overwritten before use; it
+            # becomes a fresh unconstrained symbol, so a result that really depends on it cannot be proved equal to anything.
+            self._nan_k = getattr(self, "_nan_k", 0) + 1
+            return Num(self, z3.Real("NAN_PLACEHOLDER!%d" % self._nan_k))
         return Num(self, None, self.conv(f))
 
     def conv(self, f):
